@@ -23,7 +23,7 @@ def readcodedarr(dra, indicespath, valuespath):
          f"# path_to_data_dir is the directory that contains this README\n" \
          f"a = darr.RaggedArray(path='path_to_data_dir')\n" \
          f"# example to read {position} (k={k}) subarray:\n" \
-         f"sa = a[2]\n"
+         f"sa = a[{k}]\n"
 
     return ct
 
